@@ -130,6 +130,7 @@ def handle? (j : J) : Option J :=
                 ("validdoc_r", .bool (PyGql.Spec.validDocRB s doc vars)), ("ops_rooted", .bool (PyGql.Spec.opsRooted s doc)),
                 ("schema_checks", .bool (PyGql.Spec.schemaChecksB (PyGql.Spec.withBuiltins s))),
                 ("schema_checks_exec", .bool (PyGql.Spec.schemaChecksExecB s)),
+                ("field_owners", .bool (PyGql.Spec.fieldOwnersB (PyGql.Spec.withBuiltins s))),
                 ("key_consistent", .bool (PyGql.Spec.keyConsistentB doc)), ("ranked", .bool (PyGql.Spec.rankedB doc)),
                 ("merge_safe", .bool (PyGql.Spec.mergeSafeB s doc)),
                 ("dirs_strict", .bool (PyGql.Spec.dirsStrict vars (PyGql.Spec.docDirs doc)))])
